@@ -131,9 +131,23 @@ func VerifC02_EncodeHeaderUnsupportedVersion() {
 }
 
 // verifPartialOps (C05): the raw / header-only operations agree with the full codec.
-func verifPartialOps(kind string, v primitive.ProtocolVersion) {
-	f := verifFrame(kind, v, false)
+func verifPartialOps(kind string, v primitive.ProtocolVersion) { verifPartialOpsAlg(kind, v, -1) }
+
+// alg: -1 no compression, 0 LZ4, 1 Snappy (block functions are contract stubs; low-ratio policy as in C01)
+func verifPartialOpsAlg(kind string, v primitive.ProtocolVersion, alg int) {
+	f := verifFrame(kind, v, alg >= 0)
 	c := NewRawCodec()
+	if alg >= 0 {
+		nd.CompressPolicy(2)
+		if v == primitive.ProtocolVersion5 && alg == 1 {
+			alg = 0 // Snappy is not defined for v5
+		}
+		var bc BodyCompressor = lz4.Compressor{}
+		if alg == 1 {
+			bc = snappy.Compressor{}
+		}
+		c = NewRawCodecWithCompression(bc)
+	}
 	buf := &bytes.Buffer{}
 	err := c.EncodeFrame(f, buf)
 	nd.Assert(err == nil, "version-valid frame encodes without error")
